@@ -32,8 +32,14 @@ Fixpoint bsearch (fuel : nat) (cmp : N -> comparison) (left right size : N) : N 
 Definition binary_search (max : N) (cmp : N -> comparison) : N + N :=
   bsearch (S (N.to_nat max)) cmp 0 max max.
 
+(* Which block selection the source has (regenerated flags): true = an end offset before the start
+   offset selects nothing; false = the offsets reach FileSlice::slice unchecked, whose assertion
+   `end >= start` then panics (the shape with defect F151). *)
+Definition RANGE_FIXED : bool := N.eqb SST_RANGE_INVERTED_EMPTY 1.
+
 Section Reader.
   Context {V : Type}.
+  Variable range_fixed : bool.     (* shape of file_slice_for_range; the pinned source is RANGE_FIXED *)
   Notation rblock := (rblock V).
   Definition dict := list rblock.
 
@@ -172,8 +178,7 @@ Section Reader.
 
   (* Dictionary::file_slice_for_range: which blocks are read.  `last = None` = up to the end.
      Blocks are contiguous, so the byte range ends before it starts -- and combine_ranges asserts --
-     exactly when the last block lies at least two positions before the first one's successor,
-     i.e. last + 1 < first. *)
+     exactly when last + 1 < first.  The fixed shape returns FileSlice::empty() there instead. *)
   Definition slice_for_range (d : dict) (lo hi : bound) (limit : option N) : slice_res :=
     let first_block := match bound_key lo with Some k => Some (locate_with_key d k) | None => None end in
     match first_block with
@@ -198,7 +203,7 @@ Section Reader.
         let last_id := match last_id with Some l => (match get_block d l with Some _ => Some l | None => None end) | None => None end in
         let first := match first_id with Some i => i | None => O end in
         match last_id with
-        | Some l => if Nat.ltb (S l) first then SlicePanic else Slice first (Some l)
+        | Some l => if Nat.ltb (S l) first then (if range_fixed then SliceEmpty else SlicePanic) else Slice first (Some l)
         | None => Slice first None
         end
       end
